@@ -37,7 +37,7 @@ Is(e) == l <= N /\ Line.e = e
 -----------------------------------------------------------------------------
 (* Verdict *)
 
-Relevant == {"Reserve", "Unreserve", "CreateBid", "CloseBid"}
+Relevant == {"Reserve", "Unreserve", "CreateBid", "CloseBid", "Bid"}
 
 Verdict(lg, ours, mx) ==
     [one      |-> AtMostOneBid(lg),
@@ -56,9 +56,10 @@ VStep ==
               olog' = <<>> /\ oours' = FALSE /\ obid' = "" /\ verd' = verd
          [] Line.e = "call" /\ Line.c \in Relevant ->
               /\ olog' = Append(olog, Entry(Line.c, Line.ph, Line.r, Line.price))
-              /\ UNCHANGED <<oours, obid, verd>>
-         [] Line.e = "call" /\ Line.c = "Bid" /\ Line.ph = "end" ->
-              obid' = Line.r /\ UNCHANGED <<olog, oours, verd>>
+              /\ obid' = IF Line.c = "Bid" /\ Line.ph = "end" THEN Line.r ELSE obid
+              \* a bid found matched by a lease: the provider has won this order's lease already
+              /\ oours' = (oours \/ (Line.c = "Bid" /\ Line.ph = "end" /\ Line.r = "active"))
+              /\ UNCHANGED verd
          [] Line.e = "case" /\ Line.c = "querybid" ->
               olog' = Append(olog, Entry("Bid", "seen", obid, 0)) /\ UNCHANGED <<oours, obid, verd>>
          [] Line.e = "pub" /\ Line.k = "won" ->
@@ -145,7 +146,7 @@ CAccepted == IF TLCGet("stats").diameter = N + 1 THEN TRUE
 SilentPrices == {1, MaxPrice, MaxPrice + 1}
 
 Silent == \/ \E o \in Ops : CallStart(o)
-          \/ \E o \in Ops, r \in {"ok", "err", "yes", "no", "found", "notfound"}, p \in SilentPrices \cup {0} : Complete(o, r, p)
+          \/ \E o \in Ops, r \in {"ok", "err", "yes", "no", "notfound"} \cup FoundStates, p \in SilentPrices \cup {0} : Complete(o, r, p)
           \/ \E k \in Kinds : Deliver(k)
           \/ Shutdown
           \/ FireTimer
